@@ -98,6 +98,14 @@ CLAIMS = {
         "Factorio's evaluation order and any behaviour over input histories.",
    technique="grammar-to-IR value-flow trace + sibling-handler contradiction check + constant-table semantics + colour agreement over dict displays",
    ref="DESIGN.md §2 C05"),
+ "C07": dict(
+   text="Static analysis: the two compile functions are compared as normalised stage traces (sibling cross-check), the two mains by the options they pass and by how `result` reaches "
+        "stdout / -o; the success result must be exactly to_string()/json.dumps(to_dict()) of the emitted blueprint; emission iterates all placements and wires, skips a wire only for a "
+        "missing endpoint, errors on a missing entity, dispatches each combinator type; bag-key agreement: every configuration key any producer writes for a combinator kind (and every "
+        "condition-row key) is read by that kind's configurator and vice versa. NOT decided: what draftsman's exporter writes for the configured entities (in this image its to_dict() drops "
+        "control_behavior — third-party run-time behaviour, outside the reach of source analysis of /repo), and equality of behaviour between decoded text and plan.",
+   technique="sibling-implementation trace comparison + writer/reader bag-key agreement + CFG/guard-chain checks",
+   ref="DESIGN.md §2 C07"),
 }
 NA_DEFAULT = "check not built yet (build phase in progress); see DESIGN.md for the planned rules"
 NA = {}
